@@ -299,19 +299,28 @@ func containerBody(kinds []int, withCtxCancel, allowThird bool) func() {
 }
 
 // containerChan: the caller's error / cancel channel fires while a promise is pending.
-func containerChanBody(kind int, pending bool) func() {
+func containerChanBody(kind int, pending bool) func() { return chanBody(kind, pending, false) }
+
+// chanBody: with plain the awaited object is an unresolved Promise itself (nobody ever resolves it).
+func chanBody(kind int, pending, plain bool) func() {
 	return func() {
 		bg := context.Background()
-		c := promise.NewPromiseContainer[int]()
-		if pending {
-			c.SetPromise(promise.NewPromise[int]())
+		var c promise.PromiseLike[int]
+		if plain {
+			c = promise.NewPromise[int]()
+		} else {
+			pc := promise.NewPromiseContainer[int]()
+			if pending {
+				pc.SetPromise(promise.NewPromise[int]())
+			}
+			c = pc
 		}
 		errCh := make(chan error, 1)
 		cancelCh := make(chan struct{})
 		act := vsched.Choose(2)
 		T("A", func() {
 			v, err := doAwait(c, kind, bg, errCh, cancelCh)
-			checkAwait(0, kind, v, err, true)
+			checkAwait(0, kind, v, err, !plain)
 		})
 		T("X", func() {
 			if kind == aErrCh {
@@ -329,7 +338,7 @@ func containerChanBody(kind int, pending bool) func() {
 		})
 		vsched.Settle()
 		if n := vsched.CountParked(aLabels[kind]); n > 0 {
-			fail("C11.channel-ignored", "container %s still parked after its channel fired (pending promise=%v)", aLabels[kind], pending)
+			fail("C11.channel-ignored", "%s still parked after its channel fired (plain promise=%v, pending promise=%v)", aLabels[kind], plain, pending)
 		}
 	}
 }
@@ -555,6 +564,12 @@ func init() {
 		Doc:   "PromiseContainer: two awaiters at once (Await and AwaitWithCancelCh) entering while the container is still empty, then promises p1, p2 are installed and resolved: both return the current promise's result",
 		Quick: eng.Bounds{PB: 1}, Thorough: eng.Bounds{PB: 2},
 		Body: containerBody([]int{aPlain, aCancelCh}, false, false),
+	})
+	eng.Register(&eng.Scenario{
+		Name: "promise-chan-only", Props: []string{"C11"}, ObsNames: stdObs,
+		Doc:   "Promise that nobody resolves: AwaitWithErrCh must return when the error channel delivers or closes, AwaitWithCancelCh when the cancel channel closes (choice); the wake-up may not be swallowed",
+		Quick: eng.Bounds{PB: 3}, Thorough: eng.Bounds{PB: 5},
+		Body: func() { chanBody([]int{aErrCh, aCancelCh}[vsched.Choose(2)], false, true)() },
 	})
 	eng.Register(&eng.Scenario{
 		Name: "pcontainer-errch-empty", Props: []string{"C11"}, ObsNames: stdObs,
